@@ -60,7 +60,7 @@ class SrcSim:
         while self.i < len(self.ins):
             k, a = self.ins[self.i]
             self.i += 1
-            if k == 1:
+            if k in (1, 9):
                 self.st = "yield"; return True
             if k == 3:
                 self.st = "pend"; return False
@@ -127,6 +127,38 @@ class AggSim:
         if self.st == "init":
             self.st = "dead"; return "dead"
         return self.drain()
+
+
+def close_case(c):
+    """used while shrinking: replay the ops on the position-only simulation and append the completions that an
+    outstanding access / blocked destructor still needs (closed-case rule of the oracle)"""
+    ops = [list(o) for o in c.ops]
+    ha = c.engine == "aggr1"
+    scripts, built, sim = [], False, None
+    for o in ops:
+        if not o: continue
+        if o[0] == 10 and not built and len(o) % 2 == 1 and len(scripts) < 12:
+            sc = o[1:]
+            scripts.append(sc if ha else [x if (i % 2 or x not in (8, 9)) else 12 for i, x in enumerate(sc)])
+        elif o[0] == 0 and len(o) == 1 and not built:
+            built = True
+            sim = AggSim(scripts)
+        elif sim is None:
+            continue
+        elif o[0] == 1 and len(o) == 3 and sim.st in ("init", "yield", "final") and 0 <= o[1] <= 5 and not (ha and o[1] == 1):
+            sim.access()
+        elif o[0] == 2 and len(o) == 4 and sim.st not in ("dead",) and 0 <= o[1] < len(sim.s) and sim.s[o[1]].st == "pend":
+            sim.complete(o[1])
+        elif o[0] == 3 and len(o) == 1 and sim.st in ("init", "yield", "final"):
+            sim.destroy()
+    if sim is not None:
+        guard = 0
+        while sim.st in ("wait", "dying") and sim.pending() and guard < 200:
+            i = sim.pending()[0]
+            ops.append([2, i, 1, 0])
+            sim.complete(i)
+            guard += 1
+    return Case(c.engine, c.name, ops, c.meta)
 
 
 def gen_case(rng, engine, name, scripts, n_acc, destroy_early, malformed, bg_complete_p=0.3):
